@@ -92,3 +92,13 @@ Example C05_world_example :
   existsb (fun s => existsb (N.eqb 7) (akeys (sc_status (ws_sc s)))) (w_shards w1) = true /\
   existsb (fun s => existsb (N.eqb 7) (akeys (sc_status (ws_sc s)))) (w_shards (fold_left (hist_step nw_o nw_tru) hist w1)) = true.
 Proof. vm_compute. split; reflexivity. Qed.
+
+(* non-vacuity of C05_handover_completes: source in transfer with 3 scrapes (shard 0), destination normal with 3
+   scrapes (shard 1): every hypothesis holds and after this cycle's garbage collection only shard 1 plans the target *)
+Example C05_handover_completes_example :
+  let i := ex_i 3 in
+  insync i 0 = true /\ insync i 1 = true /\ is_active (i_active i) 7%N = true /\
+  afind 7%N (reported i 0) = Some (stt InTransfer 3) /\ afind 7%N (reported i 1) = Some (stt Normal 3) /\
+  keys_at (st_p1 (run_stages ex_o i (Base.Sched.sst_of []))) 0 = [] /\
+  keys_at (st_p1 (run_stages ex_o i (Base.Sched.sst_of []))) 1 = [7%N].
+Proof. vm_compute. repeat split; reflexivity. Qed.
